@@ -24,6 +24,73 @@ def run(ctx):
     _r5(ctx, cg)
     _r6(ctx, cg)
     _r7(ctx)
+    _r8(ctx)
+    _r9(ctx)
+
+
+def _r8(ctx):
+    """the address a reply is sent from is handed to the kernel in the field the kernel reads on send: in_pktinfo.ipi_spec_dst for
+    IPv4 (ip(7): ipi_addr is ignored on send), in6_pktinfo.ipi6_addr for IPv6"""
+    P = ctx.P
+    n = 0
+    for b in P.bodies.values():
+        if not b.id.startswith("erbium_net::"):
+            continue
+        T = None
+        for bb, idx, st in b.stmts():
+            pl = st["p"]
+            if len(pl) < 2 or pl[-1] not in (".ipi_spec_dst", ".ipi_addr", ".ipi6_addr") or "rv" not in st:
+                continue
+            T = T or terms(P, b)
+            v = norm(T.rvalue(st["rv"], bb, idx))
+            conv = [y for y in subterms(v) if y[0] == "call" and "std_to_libc_in" in str(y[1])]
+            if not conv:
+                continue   # zero-initialisation and the like
+            n += 1
+            ctx.saw(b)
+            v6 = "in6" in str(conv[0][1])
+            want = ".ipi6_addr" if v6 else ".ipi_spec_dst"
+            ctx.check(pl[-1] == want, "R8", "send-from-address-in-the-field-the-kernel-reads:%s:%s" % ("v6" if v6 else "v4", b.id.split("::")[-1] if not b.id.endswith("}") else b.id.split("::")[-2]),
+                      ctx.where(b, st["sp"]),
+                      "the reply's source address is stored in %s; on send the kernel takes the local address from %s and ignores the other "
+                      "field, so replies leave from whatever address routing picks" % (pl[-1][1:], want[1:]))
+    ctx.floor("R8", "places where the reply's source address is handed to the kernel", n, 2)
+
+
+def _r9(ctx):
+    """readiness of the socket is cleared only when the system call reported that it would block: clearing it after a successful
+    read or write makes the task wait for a new edge while datagrams are already queued, and queued queries go unanswered"""
+    P = ctx.P
+    n = 0
+    for b in P.bodies.values():
+        if not b.id.startswith("erbium_net::"):
+            continue
+        clears = [(bb, tm) for bb, tm in b.calls() if (callee_name(tm) or "").endswith("::clear_ready")]
+        if not clears:
+            continue
+        ctx.saw(b)
+        cfg = cfg_of(b)
+
+        def m(d):
+            txt = show(d)
+            return d[0] == "call" and str(d[1]).rsplit("::", 1)[-1] in ("eq", "ne") and ("EAGAIN" in txt or "WouldBlock" in txt or "EWOULDBLOCK" in txt)
+        te_all = []
+        for sb, d, te, fe in bool_switches(P, b, m):
+            te_all.extend(te if str(d[1]).endswith("::eq") else fe)
+        # or, with `Err(Errno::EAGAIN) =>` patterns, at least the error edge of the system call's result
+        T = terms(P, b)
+        err_edges = []
+        for sb, tm2 in b.terms():
+            if tm2["k"] == "switch":
+                d = norm(T.at_term(tm2["discr"], sb))
+                if d[0] == "discr" and norm(d[1])[0] == "call" and str(norm(d[1])[1]).rsplit("::", 1)[-1] in ("recvmsg", "sendmsg", "recvfrom", "sendto", "recv", "send"):
+                    err_edges.extend(discr_edges(cfg, sb, 1))
+        for bb, tm in clears:
+            n += 1
+            tag = b.id.split("::")[-2] if b.id.endswith("}") else b.id.split("::")[-1]
+            ctx.check(edge_dominated(cfg, te_all, bb) or edge_dominated(cfg, err_edges, bb), "R9", "readiness-cleared-only-on-would-block:%s" % tag, ctx.where(b, tm["sp"]),
+                      "clear_ready() must be reached only on the edge where the error is EAGAIN/WouldBlock")
+    ctx.floor("R9", "clear_ready call sites", n, 2)
 
 
 def _r7(ctx):
